@@ -96,7 +96,12 @@ def run(ctx):
         strs = ["".join(x) for L in range(0, 4) for x in itertools.product(cs, repeat=L)]
         if len(strs) > 120:
             strs = strs[:40] + ctx.rng.sample(strs[40:], 80)
-        jobs.append({"queries": [{"op": "regex", "pattern": pat, "charset": cs, "strings": strs}]})
+        q = {"op": "regex", "pattern": pat, "charset": cs, "strings": strs}
+        if k % 3 == 0:
+            # one character-set object shared by several conversions (what LarkStuff does for the terminals of a grammar)
+            q["before"] = [ctx.rng.choice(["[^a]b", ".", "a[^ab]*", "[^" + cs[0] + "]", "x[^a]|y"]) for _ in range(ctx.rng.randint(1, 2))]
+            ctx.dist("shared-charset-object")
+        jobs.append({"queries": [q]})
         cases.append((pat, cs, strs))
     fixed = [("x[^abxy]|y", list("abxy")), ("a[^a]", list("a")), ("a[^ab]*b|b", list("ab")), ("(?i:ß)", CHARSETS[1]), ("(?i:s)+ß?", CHARSETS[1]), ("[^a]*", CHARSETS[0]), (".", CHARSETS[1]), ("a{2,3}|b?", CHARSETS[0])]
     for pat, cs in fixed:
@@ -105,16 +110,19 @@ def run(ctx):
         cases.append((pat, cs, strs))
     res = run_l(jobs)
     exprs, meta = [], []
-    for (pat, cs, strs), r in zip(cases, res):
+    for (pat, cs, strs), r, job in zip(cases, res, jobs):
+        bef = job["queries"][0].get("before", [])
         q = r[0]
         if "err" in q:
             if "NotImplemented" in q["err"] or "Unsupported" in q["err"] or "InvalidSyntax" in q["err"]:
                 ctx.dist("unsupported-pattern")
                 continue
-            viol(ctx, f"regex:error:{q['err'][:40]}", f"interegular_to_wfsa({pat!r}) raised {q['err']}", {"kind": "regex-error", "pattern": pat, "charset": cs, "error": q["err"]})
+            viol(ctx, f"regex:error:{q['err'][:40]}", f"interegular_to_wfsa({pat!r}) raised {q['err']}", {"kind": "regex-error", "pattern": pat, "charset": cs, "before": bef, "error": q["err"]})
             continue
         o = q["ok"]
         matched = 0
+        if o.get("charset_after") is not None and o["charset_after"] != sorted(cs):
+            viol(ctx, "regex:charset-mutated", f"interegular_to_wfsa changed the caller's character set {''.join(sorted(cs))!r} into {''.join(o['charset_after'])!r}", {"kind": "regex", "what": "charset-mutated", "pattern": pat, "charset": cs, "before": bef, "observed": o["charset_after"], "expected": sorted(cs)})
         # (1) language: weight > 0 iff re.fullmatch
         for s, enc in zip(strs, o["values"]):
             v = dec_val(enc)
@@ -122,7 +130,7 @@ def run(ctx):
             matched += want
             ctx.cov["oracle_cases"] += 1
             if (float(v) > 0) != want:
-                viol(ctx, "regex:language", f"pattern {pat!r} over {''.join(cs)!r}: string {s!r} has weight {v} but fullmatch is {want}", {"kind": "regex", "what": "language", "pattern": pat, "charset": cs, "string": s, "observed": str(v), "expected": want})
+                viol(ctx, "regex:language", f"pattern {pat!r} over {''.join(cs)!r}: string {s!r} has weight {v} but fullmatch is {want}", {"kind": "regex", "what": "language", "pattern": pat, "charset": cs, "before": bef, "string": s, "observed": str(v), "expected": want})
         ctx.count_case((pat, "".join(cs)), nontrivial=matched > 0)
         # (2) local normalisation of the returned automaton
         mass = {}
@@ -138,10 +146,10 @@ def run(ctx):
             if empty_language and s in {i_ for i_, _ in o["wfsa"]["init"]}:
                 continue  # no string over the character set matches: the lone initial state cannot be normalised
             if abs(mval - 1.0) > 1e-9:
-                viol(ctx, "regex:mass", f"pattern {pat!r}: state {s} has outgoing + final mass {mval}", {"kind": "regex", "what": "mass", "pattern": pat, "charset": cs, "state": s, "observed": mval, "expected": 1.0})
+                viol(ctx, "regex:mass", f"pattern {pat!r}: state {s} has outgoing + final mass {mval}", {"kind": "regex", "what": "mass", "pattern": pat, "charset": cs, "before": bef, "state": s, "observed": mval, "expected": 1.0})
         for i, a, j, w in o["wfsa"]["arcs"]:
             if a != "" and len(a) != 1:
-                viol(ctx, "regex:multichar-arc", f"pattern {pat!r}: arc labelled {a!r} (not a single character)", {"kind": "regex", "what": "multichar", "pattern": pat, "charset": cs, "label": a})
+                viol(ctx, "regex:multichar-arc", f"pattern {pat!r}: arc labelled {a!r} (not a single character)", {"kind": "regex", "what": "multichar", "pattern": pat, "charset": cs, "before": bef, "label": a})
         # (3) correspondence with the Coq model on the same DFA
         D = "(with_live " + nl([ord(c) for c in cs]) + " " + coq_dfa(o["fsm"]) + ")"
         chars = nl([ord(c) for c in cs])
@@ -173,7 +181,7 @@ def run(ctx):
 def replay(obj):
     cs = obj["charset"]
     s = obj.get("string", "")
-    r = run_l([{"queries": [{"op": "regex", "pattern": obj["pattern"], "charset": cs, "strings": [s]}]}])[0][0]
+    r = run_l([{"queries": [{"op": "regex", "pattern": obj["pattern"], "charset": cs, "strings": [s], "before": obj.get("before", [])}]}])[0][0]
     print("pattern:", obj["pattern"], "charset:", "".join(cs))
     print("->", json.dumps(r)[:2000], "expected:", obj.get("expected"))
     return 0
